@@ -29,7 +29,8 @@ RULE = (
     "have been drawn from, every choice/normal/uniform in the trace must come from it, and the entropy seam (unseeded "
     "default_rng()/ArrayRNG()) must record zero requests; (seed) changing only the supplied generator's seed must change the "
     "result. evaluations = processes (incl. fresh interpreters); non-trivial = executed comparison; distinct_nontrivial counts "
-    "distinct (kind, sampler, flow back-end, namespace, route) tuples."
+    "distinct (kind, sampler, flow back-end, namespace, route) tuples. "
+    "A few cases run BlackJAXSMC twice with the same jax key and generator seed (bit-identical) and once with another key (must differ)."
 )
 ASSUMPTIONS = [
     "single-threaded numerics (OMP/MKL/XLA pinned to one thread), CPU only",
@@ -112,12 +113,18 @@ def gen_cases(seed, tier):
     for _ in range(4 if quick else 40):
         add("seed", sampler="smc", flow="simflow", xp="numpy", route="sample", api="sampler")
         add("seed", sampler="minipcn", flow="simflow", xp="numpy", route="top", api="aspire")
-    return cases
+    from . import c05_blackjax
+
+    return c05_blackjax.cases(ID, seed, tier, n_quick=4, n_thorough=40) + cases
 
 
 def scenario_of(case):
     if "scenario" in case:
         return case["scenario"]
+    if case.get("kind") == "blackjax":
+        from . import c05_blackjax
+
+        return c05_blackjax.scenario(case)
     return build_scenario(case["scenario_seed"], case["sampler"], case["flow"], case["xp"], case.get("route", "ctor"),
                           case.get("api", "aspire"))
 
@@ -146,6 +153,10 @@ def fresh_digest(scn, hashseed):
 
 
 def run_case(case, workdir):
+    if case.get("kind") == "blackjax":
+        from . import c05_blackjax
+
+        return c05_blackjax.judge(case, workdir, scenario_of(case), want=('c20',))
     scn = scenario_of(case)
     kind = case["kind"]
     where = {**O.scn_where(scn), "kind": kind, "route": scn["rng_route"], "api": scn["api"]}
